@@ -312,7 +312,9 @@ func pushRoundCase() *caseIn {
 var knownEntryPoints = map[string]bool{"AddOperator": true, "AddWaitingOperator": true, "Ctx": true, "Dispatch": true, "ExceedStoreLimit": true,
 	"GetCluster": true, "GetFastOpInfluence": true, "GetHistory": true, "GetLeaderSchedulePolicy": true, "GetOpInfluence": true, "GetOperator": true,
 	"GetOperatorStatus": true, "GetOperators": true, "GetWaitingOperators": true, "OperatorCount": true, "PromoteWaitingOperator": true,
-	"PruneHistory": true, "PushOperators": true, "RemoveOperator": true, "SendScheduleCommand": true, "SetOperator": true}
+	"PruneHistory": true, "PushOperators": true, "RemoveOperator": true, "SendScheduleCommand": true, "SetOperator": true,
+	// promoted from the embedded sync.RWMutex
+	"Lock": true, "Unlock": true, "RLock": true, "RUnlock": true, "RLocker": true, "TryLock": true, "TryRLock": true}
 
 // entryRace: every unknown exported method of the controller that needs no argument (only variadic ones at most) is
 // called in a loop while four goroutines add n operators (one region each). Afterwards every operator must be running,
